@@ -220,12 +220,21 @@ func ShapeSecInfos(kind string, counts map[string]int, ids bool, r *rand.Rand) (
 }
 
 // ShapeSOD builds an (unsigned) EF.SOD with an LDSSecurityObject of the given version and number of hashes.
-func ShapeSOD(version, nHashes int, r *rand.Rand) (FileSpec, error) {
+func ShapeSOD(version, nHashes int, ascending bool, r *rand.Rand) (FileSpec, error) {
 	h := hashAlgs[r.Intn(len(hashAlgs))]
 	d := &SODSpec{Version: version, HashAlgorithm: AlgIDSpec{OID: h.oid}}
 	dgs := append([]int{1, 2}, optionalDGs...)
 	for i := 0; i < nHashes && i < len(dgs); i++ {
 		d.Hashes = append(d.Hashes, DGHashSpec{dgs[i], rbytes(r, h.n)})
+	}
+	if !ascending && len(d.Hashes) > 1 {
+		// a SEQUENCE OF in another order than ascending data group numbers: legal, and the order is content
+		for i, j := 0, len(d.Hashes)-1; i < j; i, j = i+1, j-1 {
+			d.Hashes[i], d.Hashes[j] = d.Hashes[j], d.Hashes[i]
+		}
+		if len(d.Hashes) > 2 && r.Intn(2) == 0 {
+			d.Hashes[0], d.Hashes[1] = d.Hashes[1], d.Hashes[0]
+		}
 	}
 	if version == 1 {
 		d.LDSVersion, d.UnicodeVersion = sp("0108"), sp("040000")
